@@ -20,6 +20,8 @@ What is not modelled: pivots, UDTF/lateral sources, unexpanded stars (unknown sc
   represented only by the guard itself).
 No proofs in this file.
 -/
+import SqlglotModel.Model.Ident
+
 namespace SqlglotModel.Lineage
 
 abbrev Leaf := String × String
@@ -385,48 +387,111 @@ def errScope : LScope := .union "!error" 0 0 []
 
 abbrev RecDef := SrcDef → List LScope → List LScope × Nat
 
-def expSrc (mk : String → Option String) (recDef : RecDef) (defs : List SrcDef) (m : List Nat)
+/-- `look` = how a table reference finds its definition (`normalized_sources.get(name)`): `findDef · defs` for
+    definitions keyed by plain names, `lookupKeyed …` (below) for keys and references given as identifiers -/
+abbrev Look := String → Option SrcDef
+
+def expSrc (mk : String → Option String) (recDef : RecDef) (look : Look) (m : List Nat)
     (as : String × Src) (out : List LScope) : (String × Src) × List LScope :=
   match as.2 with
   | .scope i c r t => ((as.1, .scope (remapIdx m i) c r t), out)
   | .table n =>
-    match findDef n defs with
+    match look n with
     | none => (as, out)
     | some d =>
       let r := recDef d out
-      ((as.1, .scope r.2 false none (mk n)), r.1)
+      ((as.1, .scope r.2 false none (mk d.name)), r.1)
 
-def expSrcs (mk : String → Option String) (recDef : RecDef) (defs : List SrcDef) (m : List Nat) :
+def expSrcs (mk : String → Option String) (recDef : RecDef) (look : Look) (m : List Nat) :
     List (String × Src) → List LScope → List (String × Src) × List LScope
   | [], out => ([], out)
   | as :: rest, out =>
-    let r1 := expSrc mk recDef defs m as out
-    let r2 := expSrcs mk recDef defs m rest r1.2
+    let r1 := expSrc mk recDef look m as out
+    let r2 := expSrcs mk recDef look m rest r1.2
     (r1.1 :: r2.1, r2.2)
 
-def expScope (mk : String → Option String) (recDef : RecDef) (defs : List SrcDef) (m : List Nat) (sc : LScope)
+def expScope (mk : String → Option String) (recDef : RecDef) (look : Look) (m : List Nat) (sc : LScope)
     (out : List LScope) : LScope × List LScope :=
   match sc with
   | .select projs fb srcs =>
-    let r := expSrcs mk recDef defs m srcs out
+    let r := expSrcs mk recDef look m srcs out
     (.select (projs.map (remapProj m)) (remapProj m fb) r.1, r.2)
   | .union op l r names => (.union op (remapIdx m l) (remapIdx m r) names, out)
   | .wrap i => (.wrap (remapIdx m i), out)
 
 /-- place the scopes of one fragment, in order; returns the output list and the index of the fragment's root -/
-def expFrag (mk : String → Option String) (recDef : RecDef) (defs : List SrcDef) :
+def expFrag (mk : String → Option String) (recDef : RecDef) (look : Look) :
     List LScope → List Nat → List LScope → List LScope × Nat
   | [], m, out => (out, (m.getLast?).getD out.length)
   | sc :: rest, m, out =>
-    let r := expScope mk recDef defs m sc out
-    expFrag mk recDef defs rest (m ++ [r.2.length]) (r.2 ++ [r.1])
+    let r := expScope mk recDef look m sc out
+    expFrag mk recDef look rest (m ++ [r.2.length]) (r.2 ++ [r.1])
 
-def expandF (mk : String → Option String) (defs : List SrcDef) : Nat → RecDef
+def expandF (mk : String → Option String) (look : Look) : Nat → RecDef
   | 0, _, out => (out ++ [errScope], out.length)
-  | f + 1, d, out => expFrag mk (expandF mk defs f) defs d.scopes [] out
+  | f + 1, d, out => expFrag mk (expandF mk look f) look d.scopes [] out
 
 /-- the whole query: (flattened scopes, root index) -/
-def expandQ (mk : String → Option String) (defs : List SrcDef) (fuel : Nat) (main : List LScope) : List LScope × Nat :=
-  expFrag mk (expandF mk defs fuel) defs main [] []
+def expandQ (mk : String → Option String) (look : Look) (fuel : Nat) (main : List LScope) : List LScope × Nat :=
+  expFrag mk (expandF mk look fuel) look main [] []
+
+/-! #### the keys of `sources=`: normalised exactly once (builders.py:913 for the dict keys, :917 for a reference)
+
+`normalize_table_name` = parse the text to a table, `normalize_identifiers`, join the part NAMES with "." — the
+result is UNQUOTED text.  Keys and references are modelled as identifier lists (name, quoted); `normKey` is that
+function.  A second normalisation pass has only the unquoted text to start from (`reparseKey`): quoting is lost. -/
+
+open SqlglotModel.Ident in
+def normKey (f : CaseFns) (s : Strategy) (parts : List Ident) : String :=
+  ".".intercalate (parts.map fun i => (normalize f s i).name)
+
+def splitDots : List Char → List Char → List String
+  | [], acc => [String.ofList acc.reverse]
+  | c :: rest, acc => if c = '.' then String.ofList acc.reverse :: splitDots rest [] else splitDots rest (c :: acc)
+
+open SqlglotModel.Ident in
+/-- re-reading an already normalised key text: every part comes back unquoted -/
+def reparseKey (k : String) : List Ident := (splitDots k.toList []).map fun p => ⟨p, false⟩
+
+open SqlglotModel.Ident in
+/-- the text a definition is registered under after `passes` normalisation passes (`passes` is extracted from the
+    source: Generated.C17.keyNormalisations; the property needs 1) -/
+def defKey (f : CaseFns) (s : Strategy) : Nat → List Ident → String
+  | 0, parts => ".".intercalate (parts.map (·.name))
+  | 1, parts => normKey f s parts
+  | n + 2, parts => normKey f s (reparseKey (defKey f s (n + 1) parts))
+
+structure KeyedDef where
+  key : List SqlglotModel.Ident.Ident
+  scopes : List LScope
+
+/-- a Python dict built in order: a later equal key replaces an earlier one -/
+def findKeyed (k : String) : List (String × List LScope) → Option SrcDef
+  | [] => none
+  | (dk, sc) :: rest =>
+    match findKeyed k rest with
+    | some d => some d
+    | none => if dk = k then some ⟨dk, sc⟩ else none
+
+def lookupRef (n : String) : List (String × List SqlglotModel.Ident.Ident) → Option (List SqlglotModel.Ident.Ident)
+  | [] => none
+  | (a, r) :: rest => if a = n then some r else lookupRef n rest
+
+open SqlglotModel.Ident in
+/-- `normalized_sources.get(normalize_table_name(node))`: `refs` gives the identifier parts of each table reference -/
+def lookupKeyed (f : CaseFns) (s : Strategy) (passes : Nat) (defs : List KeyedDef) (refs : List (String × List Ident)) : Look :=
+  fun n =>
+    match lookupRef n refs with
+    | none => none
+    | some r => findKeyed (normKey f s r) (defs.map fun d => (defKey f s passes d.key, d.scopes))
+
+
+/-- what `to_node` reads back from the tag `exp.expand` wrote: `dt.comments[0].split()[1]` of `"source: <name>"`,
+    i.e. the first whitespace-delimited word of the normalised name (a name containing a space is cut) -/
+def firstWord (n : String) : String :=
+  String.ofList ((n.toList.dropWhile Char.isWhitespace).takeWhile fun c => !c.isWhitespace)
+
+/-- the tagging of `exp.expand` as `to_node` sees it -/
+def expandTag (n : String) : Option String := some (firstWord n)
 
 end SqlglotModel.Lineage
